@@ -1,5 +1,5 @@
 (** * C10 — queued instructions are invisible until the next step *)
-From Bourse Require Import Model.Types Model.Book Model.Obs Model.Rng Model.Env Proofs.EnvProps.
+From Bourse Require Import Model.Types Model.Book Model.Obs Model.Rng Model.Env Proofs.EnvProps Proofs.CacheInv.
 
 (** Submitting a new order changes nothing in the environment except that the
     addressed book's order list gains one entry with status New and the queue
@@ -45,6 +45,19 @@ Proof.
   intros L e g e' g' H. apply step_spec in H.
   destruct H as (start & q & m1 & l2 & _ & _ & _ & _ & _ & _ & _ & Hl & <- & _). exact Hl.
 Qed.
+(** ... as an invariant: the cached snapshot equals the level-2 data of the live books at
+    construction and after every operation an environment offers (submit, cancel, modify, step,
+    enable, disable) - between steps because level-2 data is blind to what those operations change,
+    at a step because the step refreshes it. *)
+Theorem c10_cache_ok_at_construction : forall L t0 ticks step trading e,
+  menv_new L t0 ticks step trading = Ok e -> all_l2 L (en_market e) = Ok (en_l2 e).
+Proof. exact cache_ok_new. Qed.
+
+Theorem c10_cache_ok_after_every_operation : forall L e g o e' g' x,
+  env_op o -> all_l2 L (en_market e) = Ok (en_l2 e) -> menv_apply L e g o = Ok (e', g', x) ->
+  all_l2 L (en_market e') = Ok (en_l2 e').
+Proof. exact cache_ok_preserved. Qed.
+
 Theorem c10_level2_blind_to_orders_and_flag : forall L s x b,
   level_2_data L (set_orders s x) = level_2_data L s /\ level_2_data L (set_trading s b) = level_2_data L s.
 Proof. intros; split; [apply level2_ignores_orders | apply level2_ignores_flag]. Qed.
@@ -55,3 +68,5 @@ Print Assumptions c10_getters_ignore_orders.
 Print Assumptions c10_cancel_modify_only_queue.
 Print Assumptions c10_cache_refreshed_by_step.
 Print Assumptions c10_level2_blind_to_orders_and_flag.
+Print Assumptions c10_cache_ok_at_construction.
+Print Assumptions c10_cache_ok_after_every_operation.
